@@ -52,6 +52,27 @@ def run(tier, seed, replay=None):
         if rnd.random() < 0.15:
             body = [["dfs"] + body]
         cases.append(mk_case([], ["q"], body, maxans=30, budget=3000))
+    # the projected variable is bound to a list / compound *containing* variables before the search
+    # branches; the branches bind the inner variables: the walked value must be the full walk* of the
+    # arriving state (the shallow walk of x is the same term in every branch)
+    for _ in range(n // 2):
+        vals = [rnd.randint(-3, 4) for _ in range(rnd.randint(2, 4))]
+        shape = rnd.choice([["list", "a", "b"], ["ilist", "a", "b"], ["comp", "Pair", "a", "b"], ["list", ["list", "a"], "b"],
+                            ["comp", "Wrap", ["list", "a", 7]], ["list", "a"]])
+        branch = rnd.choice([
+            ["lib", "member", "a", ["list"] + vals],
+            ["cond"] + [["eq", "a", v] for v in vals],
+            ["cond"] + [["conj", ["eq", "a", v], ["eq", "b", v + 1]] for v in vals],
+            ["conj", ["lib", "member", "b", ["list"] + vals[:2]], ["lib", "member", "a", ["list"] + vals]],
+        ])
+        inner = rnd.choice([
+            [["sq", "x", "q"]],
+            [["sq", "x", "z"], ["eq", "q", ["list", "a", "z"]]],
+            [["sq", "x", "z"], ["eq", "q", ["list", "x", "z"]]],
+        ])
+        pre = [["eq", "x", shape], branch] if rnd.random() < 0.8 else [branch, ["eq", "x", shape]]
+        body = [["fresh", ["x", "a", "b", "z"]] + pre + [["project", ["x"]] + inner]]
+        cases.append(mk_case([], ["q"], body, maxans=30, budget=4000))
     return pcheck.run_check("C11", tier, seed, cases, "exact", oracle, cone=CONE, replay=replay,
         rule="a project goal reached by 1-4 states (through member, conde, a conjunction, or with the variable unbound / bound to a list) "
              "whose body squares the projected value non-relationally, directly, after other goals, inside a disjunction, after a multi-answer "
